@@ -1357,29 +1357,35 @@ package jsonpath
 // itself (evaluation dereferences it without a nil check and measures depth by that node's remaining-path text); for an
 // all-wildcard multi-name selector that includes the union twin that takes over on arrays.
 //@ spec ctxOK(b *syntaxBasicNode) bool = b != nil && b.errorRuntime != nil && b.errorRuntime.node == b
+//@ spec multiMode(m *syntaxChildMultiIdentifier, mode bool) bool = m.syntaxBasicNode.accessorMode == mode && (m.isAllWildcard ==> m.unionQualifier.syntaxBasicNode.accessorMode == mode)
 //@ spec multiCtx(m *syntaxChildMultiIdentifier) bool = m != nil && ctxOK(m.syntaxBasicNode) && (m.isAllWildcard ==> ctxOK(m.unionQualifier.syntaxBasicNode))
 //@ func (*jsonPathParser).pushChildMultiIdentifier
-//@   props C02 C19 C03 C15
+//@   props C02 C19 C03 C15 C12
 //@   parsetime
 //@   requires p != nil
 //@   requires nodeOK(node) && nodeOK(appendNode)
 //@   requires isType(node, *syntaxChildMultiIdentifier) ==> multiCtx(asType(node, *syntaxChildMultiIdentifier))
 //@   ensures ctx: len(p.params) == old(len(p.params)) + 1 && isType(topParam(p), *syntaxChildMultiIdentifier) && multiCtx(asType(topParam(p), *syntaxChildMultiIdentifier))
+//@   requires isType(node, *syntaxChildMultiIdentifier) ==> multiMode(asType(node, *syntaxChildMultiIdentifier), p.accessorMode)
+//@   ensures mode: multiMode(asType(topParam(p), *syntaxChildMultiIdentifier), p.accessorMode)
 
 //@ func (*jsonPathParser).pushChildSingleIdentifier
-//@   props C02 C19 C16 C18 C03 C15
+//@   props C02 C19 C16 C18 C03 C15 C12
 //@   parsetime
 //@   requires p != nil
 //@   requires wf(p.params)
 // C16: the node pushed looks up exactly the (unescaped) text it was given
 //@   ensures node: len(p.params) == old(len(p.params)) + 1 && isType(topParam(p), *syntaxChildSingleIdentifier) && asType(topParam(p), *syntaxChildSingleIdentifier) != nil && asType(topParam(p), *syntaxChildSingleIdentifier).identifier == text
 //@   ensures ctx: ctxOK(asType(topParam(p), *syntaxChildSingleIdentifier).syntaxBasicNode)
+// C12 at parse time: a node is built with the accessor flag of the running Parse
+//@   ensures mode: asType(topParam(p), *syntaxChildSingleIdentifier).syntaxBasicNode.accessorMode == p.accessorMode
 
 //@ func (*jsonPathParser).pushChildWildcardIdentifier
-//@   props C02 C19 C03 C15
+//@   props C02 C19 C03 C15 C12
 //@   parsetime
 //@   requires p != nil
 //@   ensures ctx: len(p.params) == old(len(p.params)) + 1 && isType(topParam(p), *syntaxChildWildcardIdentifier) && asType(topParam(p), *syntaxChildWildcardIdentifier) != nil && ctxOK(asType(topParam(p), *syntaxChildWildcardIdentifier).syntaxBasicNode)
+//@   ensures mode: asType(topParam(p), *syntaxChildWildcardIdentifier).syntaxBasicNode.accessorMode == p.accessorMode
 
 // C09/C10 at parse time: what a comparison builds from its two operands.  A constant operand (a literal value or a $-rooted
 // path) ends up on the right; when that is a literal value its dynamic type picks the validator of a direct comparison,
@@ -1492,15 +1498,16 @@ package jsonpath
 //@   requires p != nil
 
 //@ func (*jsonPathParser).pushFilterQualifier
-//@   props C02 C19 C03 C15
+//@   props C02 C19 C03 C15 C12
 //@   parsetime
 //@   requires p != nil
 //@   ensures ctx: len(p.params) == old(len(p.params)) + 1 && isType(topParam(p), *syntaxFilterQualifier) && asType(topParam(p), *syntaxFilterQualifier) != nil && ctxOK(asType(topParam(p), *syntaxFilterQualifier).syntaxBasicNode) && asType(topParam(p), *syntaxFilterQualifier).query == query
+//@   ensures mode: asType(topParam(p), *syntaxFilterQualifier).syntaxBasicNode.accessorMode == p.accessorMode
 
 // C19 / C14: the node pushed holds the function VALUE found under that name when the path was parsed - filter functions
 // are looked up first - so later changes of the Config cannot reach a parsed function
 //@ func (*jsonPathParser).pushFunction
-//@   props C02 C19 C14 C17 C03 C15
+//@   props C02 C19 C14 C17 C03 C15 C12
 //@   parsetime
 //@   requires p != nil
 //@   requires wf(p.params)
@@ -1509,6 +1516,7 @@ package jsonpath
 //@   ensures filter: has(p.filterFunctions, funcName) ==> isType(topParam(p), *syntaxFilterFunction) && asType(topParam(p), *syntaxFilterFunction) != nil && asType(topParam(p), *syntaxFilterFunction).function == p.filterFunctions[funcName] && asType(topParam(p), *syntaxFilterFunction).syntaxBasicNode.accessorMode == p.accessorMode
 //@   ensures aggregate: !has(p.filterFunctions, funcName) ==> has(p.aggregateFunctions, funcName) && isType(topParam(p), *syntaxAggregateFunction) && asType(topParam(p), *syntaxAggregateFunction) != nil && asType(topParam(p), *syntaxAggregateFunction).function == p.aggregateFunctions[funcName]
 //@   ensures ctx: isType(topParam(p), *syntaxFilterFunction) ? ctxOK(asType(topParam(p), *syntaxFilterFunction).syntaxBasicNode) : ctxOK(asType(topParam(p), *syntaxAggregateFunction).syntaxBasicNode)
+//@   ensures mode: isType(topParam(p), *syntaxFilterFunction) ? asType(topParam(p), *syntaxFilterFunction).syntaxBasicNode.accessorMode == p.accessorMode : asType(topParam(p), *syntaxAggregateFunction).syntaxBasicNode.accessorMode == p.accessorMode
 
 //@ func (*jsonPathParser).pushIndexSubscript
 //@   props C02 C19 C18
@@ -1543,11 +1551,12 @@ package jsonpath
 //@   ensures built: indexBuilt(p, text, true)
 
 //@ func (*jsonPathParser).pushRecursiveChildIdentifier
-//@   props C02 C19 C03 C15
+//@   props C02 C19 C03 C15 C12
 //@   parsetime
 //@   requires p != nil
 //@   requires node != nil
 //@   ensures ctx: len(p.params) == old(len(p.params)) + 1 && isType(topParam(p), *syntaxRecursiveChildIdentifier) && asType(topParam(p), *syntaxRecursiveChildIdentifier) != nil && ctxOK(asType(topParam(p), *syntaxRecursiveChildIdentifier).syntaxBasicNode) && asType(topParam(p), *syntaxRecursiveChildIdentifier).syntaxBasicNode.next == node
+//@   ensures mode: asType(topParam(p), *syntaxRecursiveChildIdentifier).syntaxBasicNode.accessorMode == p.accessorMode
 
 //@ func (*jsonPathParser).pushRootIdentifier
 //@   props C02 C19
@@ -1573,11 +1582,12 @@ package jsonpath
 //@   ensures built: len(p.params) == old(len(p.params)) + 1 && isType(topParam(p), *syntaxSlicePositiveStepSubscript) && asType(topParam(p), *syntaxSlicePositiveStepSubscript) != nil && asType(topParam(p), *syntaxSlicePositiveStepSubscript).start == start && asType(topParam(p), *syntaxSlicePositiveStepSubscript).end == end && asType(topParam(p), *syntaxSlicePositiveStepSubscript).step == step
 
 //@ func (*jsonPathParser).pushUnionQualifier
-//@   props C02 C19 C03 C15
+//@   props C02 C19 C03 C15 C12
 //@   parsetime
 //@   requires p != nil
 //@   requires subscript != nil
 //@   ensures ctx: len(p.params) == old(len(p.params)) + 1 && isType(topParam(p), *syntaxUnionQualifier) && asType(topParam(p), *syntaxUnionQualifier) != nil && ctxOK(asType(topParam(p), *syntaxUnionQualifier).syntaxBasicNode)
+//@   ensures mode: asType(topParam(p), *syntaxUnionQualifier).syntaxBasicNode.accessorMode == p.accessorMode
 
 //@ func (*jsonPathParser).pushWildcardSubscript
 //@   props C02 C19
@@ -1799,7 +1809,7 @@ package jsonpath
 //@   case ruleAction44 ensures str: isType(stk(p, 0), string) && asType(stk(p, 0), string) == dotUnesc(text)
 //@   case ruleAction10 ensures key: isType(stk(p, 0), *syntaxChildSingleIdentifier) && asType(stk(p, 0), *syntaxChildSingleIdentifier).identifier == dotUnesc(text)
 // a multi-name selector on the stack was pushed by pushChildMultiIdentifier (its postcondition ctx)
-//@   case ruleAction11 assume isType(stk(p, 1), *syntaxChildMultiIdentifier) ==> multiCtx(asType(stk(p, 1), *syntaxChildMultiIdentifier))
+//@   case ruleAction11 assume isType(stk(p, 1), *syntaxChildMultiIdentifier) ==> multiCtx(asType(stk(p, 1), *syntaxChildMultiIdentifier)) && multiMode(asType(stk(p, 1), *syntaxChildMultiIdentifier), p.jsonPathParser.accessorMode)
 //@   case ruleAction13 assume sqValid(text)
 //@   case ruleAction13 ensures key: isType(stk(p, 0), *syntaxChildSingleIdentifier) && asType(stk(p, 0), *syntaxChildSingleIdentifier).identifier == sqJson(text)
 //@   case ruleAction14 ensures key: isType(stk(p, 0), *syntaxChildSingleIdentifier) && asType(stk(p, 0), *syntaxChildSingleIdentifier).identifier == dqJson(text)
